@@ -5,8 +5,9 @@
 
    Addresses, delegation ids, block numbers, VET amounts are N.  The zero address is 0.
    A Go *T that may be nil is an option.  Errors: [Rev] = staker.ErrRevert (the transaction reverts),
-   [Err] = any other Go error (a system error: the native call aborts / the block is invalid).  In both
-   cases the caller ([step]) leaves the state unchanged, as the EVM checkpoint / the discarded block state does.
+   [Err] = any other Go error (a system error: the native call aborts).  A failed USER operation leaves the state unchanged
+   ([step]), as the EVM checkpoint does.  A failing SyncPOS (block step) does not fail the block: packer and validator revert to
+   the checkpoint taken before it and go on, so [run_op OBlock] always succeeds, with the pre-block state at the new block number.
 
    Integer widths: math.SafeAdd / SafeSub are modelled with their overflow / underflow branch; unchecked uint64
    subtractions that could wrap are written with sub64 / sub32; unchecked additions and the weight product are
